@@ -477,6 +477,20 @@ func runCheck(o *checkOpts) int {
 				}
 			}
 		}
+		// a candidate that the batch did not reproduce is tried once more alone in a fresh
+		// process: the executor starts every path from freshly initialised package state,
+		// the batch does not (process-wide state written by earlier vectors can mask it)
+		alone := 0
+		for _, v := range cands {
+			r := nat[v.ID]
+			if alone >= 60 || !(r == nil || r.Outcome == "ok") {
+				continue
+			}
+			alone++
+			if r2 := runBatch(bin, []*Vector{v}, 10*time.Second)[v.ID]; r2 != nil && r2.Outcome != "ok" && r2.Outcome != "assume" && r2.Outcome != "vector" {
+				nat[v.ID] = r2
+			}
+		}
 		head := repoHead()
 		reported := map[string]bool{}
 		for _, v := range cands {
